@@ -13,6 +13,8 @@ import (
 	"github.com/ethereum/go-ethereum/common"
 	"pgregory.net/rapid"
 
+	"github.com/teleport-network/teleport/syscontracts"
+	stakingcontract "github.com/teleport-network/teleport/syscontracts/staking"
 	endpointcontract "github.com/teleport-network/teleport/syscontracts/xibc_endpoint"
 	packetcontract "github.com/teleport-network/teleport/syscontracts/xibc_packet"
 	packettypes "github.com/teleport-network/teleport/x/xibc/core/packet/types"
@@ -300,6 +302,20 @@ func (c *ctl) sendBatch(t *rapid.T) {
 		total.Add(total, amt)
 		dsts = append(dsts, dst)
 	}
+	// the same transaction may go on to use another system contract: a delegation through the staking contract after the sends
+	// (its events follow the PacketSent logs in the receipt; every hook must still see the logs that are its own)
+	withStake := mode == "all-valid" && rapid.IntRange(0, 2).Draw(t, "thenDelegate") == 0
+	if withStake {
+		k := rapid.IntRange(1, 2).Draw(t, "delegations")
+		val := ch.App.StakingKeeper.GetAllValidators(ch.Ctx())[0].OperatorAddress
+		for i := 0; i < k; i++ {
+			stake := big.NewInt(rapid.Int64Range(1, 1000).Draw(t, "stake"))
+			data, err := stakingcontract.StakingContract.ABI.Pack("delegate", val, stake)
+			kit.Must(err, "pack delegate")
+			ops = append(ops, asmkit.Op{Kind: asmkit.OpCall, Target: common.HexToAddress(syscontracts.StakingContractAddress), Data: data, Value: big.NewInt(0)})
+			total.Add(total, stake) // stays with the calling contract: the coins it delegates
+		}
+	}
 	before := ch.DumpStores(ch.Ctx(), bridge.DigestStores...)
 	res := ch.DeliverEth(user, nil, total, asmkit.Script(ops))
 	after := ch.DumpStores(ch.Ctx(), bridge.DigestStores...)
@@ -335,6 +351,11 @@ func (c *ctl) sendBatch(t *rapid.T) {
 				dup = true
 			}
 			seen[d] = true
+		}
+		if withStake {
+			// whether the delegation itself can succeed from a contract under construction is not C04's matter
+			m.R.Label("batch_with_delegation_refused")
+			return
 		}
 		if !dup && mode == "all-valid" {
 			m.Failf("batch of valid native sends to distinct destinations (destinations %v) failed: code=%d vm=%s", dsts, res.Code, res.VmError)
@@ -379,6 +400,9 @@ func (c *ctl) sendBatch(t *rapid.T) {
 		m.ApplySendLedger(p)
 		c.okSends++
 		c.dsts[fmt.Sprintf("%d>%s", src, p.P.DstChain)] = true
+	}
+	if withStake {
+		m.R.Label("batch_with_delegation_ok")
 	}
 	m.R.Label("batch_" + mode)
 	m.R.LabelN("send_same_tx", len(pkts))
